@@ -123,12 +123,13 @@ fn choose_cut(ops: &[Op], dict: u64, cut_class: u8, sel: u16) -> usize {
         produced.push(p + op_out_len(op) as u64);
     }
     let want = |p: u64| -> bool {
-        match cut_class % 6 {
+        match cut_class % 7 {
             0 => p == 0,
             1 => p > 0 && p < dict,
             2 => p > 0 && p % dict == 0,
             3 => p % dict == dict - 1,
             4 => p >= 2 * dict,
+            5 => p > 65536,
             _ => p > dict,
         }
     };
@@ -194,7 +195,22 @@ impl Property for C09 {
             2 => (Just(Container::Stream), dict_header()),
         ];
         (
-            (props_any(), cont, abs_program(n, 200), any::<u16>(), 0u8..6),
+            (
+                props_any(),
+                cont,
+                prop_oneof![
+                    12 => abs_program(n, 200),
+                    // long outputs: more than 64 KiB / 128 KiB before the bad copy
+                    1 => (abs_program(8, 10), 250u16..900, any::<u16>()).prop_map(|(mut p, k, dsel)| {
+                        p.insert(0, AbsOp::Lit(LitKind::Given, k as u8));
+                        p.insert(1, AbsOp::Lit(LitKind::Noise, 5));
+                        p.insert(2, AbsOp::Run { k, op: Box::new(AbsOp::Match { dclass: 6, dsel, lclass: 6, lsel: 0 }) });
+                        p
+                    }),
+                ],
+                any::<u16>(),
+                0u8..7,
+            ),
             (0u8..8, any::<u16>(), 0u8..7, prop::collection::vec(any::<u8>(), 0..6), any::<bool>()),
             prop_oneof![
                 3 => Just(None),
@@ -332,7 +348,7 @@ impl Property for C09 {
             &a.prog,
             ConcCfg {
                 dict: eff,
-                max_out: 30_000,
+                max_out: 300_000,
                 max_ops: 4000,
             },
         );
@@ -373,6 +389,7 @@ impl Property for C09 {
             ("lzma2:distance reaches behind dictionary reset", 300 * m),
             ("bad:matched literal with rep0 behind a dictionary reset", 1000 * m),
             ("sink:short writes", 1000 * m),
+            ("pos:more than 64 KiB produced, before the first wrap", 200 * m),
         ]
     }
 
@@ -430,6 +447,9 @@ impl Property for C09 {
                 }
                 if produced >= 2 * eff {
                     st.class("pos:after >=2 laps");
+                }
+                if produced > 65536 && produced < eff {
+                    st.class("pos:more than 64 KiB produced, before the first wrap");
                 }
                 if !prefix.is_empty() {
                     st.nontrivial(&(props.byte(), *dict, *container as u8, &*prefix, *bad, &*tail));
